@@ -48,23 +48,34 @@ def dist (sc : Float × Float) (a b : Float × Float) : Float :=
   let d (s u v : Float) : Float :=
     if u.isNaN && v.isNaN then 0.0 else if u.isNaN || v.isNaN then 1.0e300
     else
-      let w := Float.abs (u - v)
-      -- geographic longitudes: ±180 are the same meridian
-      let w := if s > 1000.0 && w > 359.0 then Float.abs (w - 360.0) else w
-      w * s
+      -- coordinates are compared as numbers: +180 and −180 are different answers (proj4js keeps a
+      -- point on the antimeridian on its own side, `SPI` in adjust_lon.js)
+      Float.abs (u - v) * s
   let dx := d sc.1 a.1 b.1
   let dy := d sc.2 a.2 b.2
   if dx > dy then dx else dy
+
+/-- distance to a *reference* answer: the Helmert chain yields a longitude by `atan2`, i.e. modulo
+360°, so geographic longitudes are compared modulo a full turn here (and only here) -/
+def distRef (sc : Float × Float) (a b : Float × Float) : Float :=
+  if sc.2 > 1000.0 && !(a.1.isNaN || b.1.isNaN) then
+    let w := Float.abs (a.1 - b.1)
+    let w := if w > 359.0 then Float.abs (w - 360.0) else w
+    dist sc (w, a.2) (0.0, b.2)
+  else dist sc a b
 
 inductive Hop where
   | ok (x y : Float)
   | same (x y : Float)
   | fail (what : String)
+  /-- an exported SR field changed when `DeriveConstants` was called again on the finished SR -/
+  | changed (what : String)
 
 def parseHop (t : List String) : Option Hop :=
   match t with
   | ["ok", a, b] => do let x ← hexF a; let y ← hexF b; pure (.ok x y)
   | ["same", a, b] => do let x ← hexF a; let y ← hexF b; pure (.same x y)
+  | "changed" :: w :: _ => some (.changed w)
   | "err" :: w :: _ => some (.fail ("err:" ++ w))
   | "panic" :: w :: _ => some (.fail ("panic:" ++ w))
   | ["err"] => some (.fail "err")
@@ -124,6 +135,10 @@ def judgeHop (src dst : String) (x y : Float) (h : Hop) : Option String :=
   let js := Js.proj4 (α := Float) src dst x y
   let tag := s!"{projOf src}>{projOf dst}"
   match h with
+  | .changed what =>
+    -- `DeriveConstants` on a finished SR must leave the exported fields as `Parse` left them
+    -- (proj4js' deriveConstants is guarded the same way: `if (!json.datum)`)
+    some s!"SPEC {tag} sr-fields-change-on-rederive {what}"
   | .fail what =>
     -- the port rejects: proj4js must fail too, and the model must reject as well
     match js, model with
@@ -164,15 +179,20 @@ def judgeHop (src dst : String) (x y : Float) (h : Hop) : Option String :=
       | some rs, some rd =>
         let noShift := Spec.datumNone (α := Float) src || Spec.datumNone (α := Float) dst
         match Spec.refForward rs rd noShift x y with
-        | some (rx, ry) =>
-          let dr := dist sc (ix, iy) (rx, ry)
+        | some (rx0, ry0) =>
+          -- on the antimeridian of the projection both edges are the same place: the reference is also
+          -- evaluated 1e-9 degree (0.1 mm) either side and the nearest answer counts
+          let cands := [(rx0, ry0)] ++
+            ((Spec.refForward rs rd noShift (x - 1.0e-9) y).toList ++ (Spec.refForward rs rd noShift (x + 1.0e-9) y).toList)
+          let (rx, ry) := cands.foldl (fun best c => if distRef sc (ix, iy) c < distRef sc (ix, iy) best then c else best) (rx0, ry0)
+          let dr := distRef sc (ix, iy) (rx, ry)
           if rx.isNaN || ry.isNaN then none
           else if dr > Spec.tolRef then
             -- name the cause when it is the false origin missing from the spherical transverse Mercator
             let cause :=
               if (rd.kind == .tmerc || rd.kind == .utm) && rd.sphere then
                 match Spec.refForward rs { rd with x0 := 0, y0 := 0 } noShift x y with
-                | some (r0x, r0y) => if dist sc (ix, iy) (r0x, r0y) ≤ Spec.tolRef then "spherical-tmerc-omits-false-origin-like-proj4js " else ""
+                | some (r0x, r0y) => if distRef sc (ix, iy) (r0x, r0y) ≤ Spec.tolRef then "spherical-tmerc-omits-false-origin-like-proj4js " else ""
                 | none => ""
               else if (rd.kind == .tmerc || rd.kind == .utm) && rd.es > 0.009 && dr < 0.02 then
                 -- flattening above 1/222 (only the 1738 ellipsoid `mprts` among the built-in ones):
@@ -204,7 +224,7 @@ def judgeHop (src dst : String) (x y : Float) (h : Hop) : Option String :=
     | none, none, some s => some s
     | none, none, none => none
 
-def judgeTr (fields : List String) (rhs : String) : String :=
+def judgeTr (fields : List String) (rhs : String) (flavour : String := "") : String :=
   let defs := (fields.drop 1).dropLast
   let xy := tokens (fields.getLast?.getD "")
   match xy with
@@ -212,7 +232,7 @@ def judgeTr (fields : List String) (rhs : String) : String :=
     match hexF a, hexF b with
     | some x0, some y0 =>
       let hops := (rhs.splitOn " ; ").map fun s => parseHop (tokens s)
-      let cls := "tr-" ++ "-".intercalate (defs.map projOf) ++ ":" ++ String.join (defs.map datumTag)
+      let cls := "tr" ++ flavour ++ "-" ++ "-".intercalate (defs.map projOf) ++ ":" ++ String.join (defs.map datumTag)
       let rec go : List String → List (Option Hop) → Float → Float → Nat → String
         | s :: d :: rest, (some h) :: hs, x, y, i =>
           match judgeHop s d x y h with
@@ -224,6 +244,7 @@ def judgeTr (fields : List String) (rhs : String) : String :=
             | .ok nx ny => go (d :: rest) hs nx ny (i + 1)
             | .same nx ny => go (d :: rest) hs nx ny (i + 1)
             | .fail _ => s!"OK {cls}-rejected"
+            | .changed _ => s!"OK {cls}"
         | _ :: _ :: _, none :: _, _, _, _ => s!"DIFF {cls} unreadable-result"
         | _ :: _ :: _, [], _, _, i => s!"DIFF {cls} result-stops-before-hop{i}"
         | _, _, _, _, _ => s!"OK {cls}"
@@ -301,6 +322,10 @@ def judgeLine (line : String) : String :=
     let fields := splitBar lhs
     match fields with
     | "tr" :: _ :: _ :: _ :: _ => judgeTr fields rhs
+    | k :: _ :: _ :: _ :: _ =>
+      -- histories: extra DeriveConstants calls (`trd<k>`) / repeated parses (`trp<k>`) must not change
+      -- anything, so the expected answers are those of the plain chain
+      if k.startsWith "trd" || k.startsWith "trp" then judgeTr fields rhs ((k.drop 2).toString) else "DIFF bad-line unknown-case"
     | ["parse", code] => judgeParse code rhs
     | _ => "DIFF bad-line unknown-case"
   | _ => "DIFF bad-line no-arrow"
